@@ -18,6 +18,8 @@ case "$ID" in
   C08) T=cond; MAXLEN=4096 ;;
   C09) T=macro; MAXLEN=4096 ;;
   C10) T=syms; MAXLEN=4096 ;;
+  C04) T=instr; MAXLEN=256 ;;
+  C13) T=gate; MAXLEN=256 ;;
   *) exit 0 ;;
 esac
 BUDGET="${VERIF_FUZZ_SECONDS:-300}"
@@ -68,7 +70,7 @@ try:
 except Exception:
     sys.exit(0)
 e["coverage"]["libfuzzer_leg"]={"target":"fuzz_"+t,"seconds":int(budget),"executions_reported":int(execs),"edge_coverage_reported":int(cov),"corpus_units_at_end":int(units),"artifacts":int(nart),"artifacts_confirmed_as_violations":int(nviol),"engine_exit":int(frc),
-  "note":"bytes are decoded into the same generator values as the proptest leg (pass-through RNG) and judged by the same oracle inside the target; artifacts are re-judged by `avra-verif fuzzreplay` without the engine; the campaign is only approximately reproducible (-seed), the artifact is the reproducible unit"}
+  "note":"bytes are decoded into the same generator values as the proptest leg (bounded byte-cursor decoders, harness/src/decode.rs) and judged by the same oracle inside the target; artifacts are re-judged by `avra-verif fuzzreplay` without the engine; the campaign is only approximately reproducible (-seed), the artifact is the reproducible unit"}
 e["violations"]=int(e.get("violations",0))+int(nviol)
 json.dump(e,open(p,"w"),indent=2)
 PY
